@@ -510,6 +510,12 @@ class Layout:
 
 
 def render_str(q, s):
+    # a backslash in the value that stands before a quote character is not an escape: the string must then be
+    # delimited by the other quote (only backslash + delimiter is an escape)
+    if "\\'" in s:
+        q = '"'
+    elif '\\"' in s:
+        q = "'"
     return q + s.replace(q, "\\" + q) + q
 
 
@@ -565,7 +571,9 @@ class RefParser:
     expr    := digits | string | ident '(' args ')' | ident | '[' args ']' | '{' entries '}'
     args    := ε | expr (ws ',' ws expr)*
     entries := ε | string ws ':' ws expr (ws ',' ws string ws ':' ws expr)*     (keys distinct)
-    string  := q (any char except q, backslash, ';'  |  backslash q)* q     q ∈ {", '}
+    string  := q (any char except q, backslash, ';'  |  backslash q  |  backslash c)* q     q ∈ {", '}
+               (backslash q denotes q; backslash c, c a printable ASCII character other than q, backslash and ';',
+                denotes the two characters themselves)
     """
 
     def __init__(self, s):
@@ -608,10 +616,15 @@ class RefParser:
             if c == q:
                 return out
             if c == "\\":
-                if self.peek() != q:
-                    raise NotWellFormed("backslash not followed by the quote")
-                self.i += 1
-                out += q
+                n = self.peek()
+                if n == q:
+                    self.i += 1
+                    out += q
+                elif n != "" and " " <= n <= "~" and n not in "\\;":
+                    self.i += 1
+                    out += "\\" + n
+                else:
+                    raise NotWellFormed("backslash not followed by the quote or a plain character")
             else:
                 out += c
 
@@ -841,7 +854,12 @@ TABLES = [
 
 
 def gen_string(rng, maxlen=6):
-    return "".join(rng.choice(STR_CH) for _ in range(rng.randrange(0, maxlen + 1)))
+    s = "".join(rng.choice(STR_CH) for _ in range(rng.randrange(0, maxlen + 1)))
+    if rng.random() < 0.1:
+        # a backslash that does not stand before the delimiter is an ordinary character of the value
+        i = rng.randrange(len(s) + 1)
+        s = s[:i] + "\\" + rng.choice(["a", "z", " ", "n", "'", '"', "(", ","]) + s[i:]
+    return s
 
 
 def gen_expr(rng, d, env, want=None, reg=None, ret=None, typed=0.8):
